@@ -47,12 +47,14 @@ Acc(ws, i) == SumW(SubSeq(ws, 1, i))
 ClusterOf(ws, draw) == CHOOSE i \in 1..Len(ws) : Acc(ws, i - 1) <= draw /\ draw < Acc(ws, i)
 
 \* ---------------- request hash inputs ----------------------------------------------------------------------
-\* pols: sequence of [type ("hdr" | "chan"), name, term, sub (0: no regex rewrite, 1: every "a" -> "b")]
+\* pols: sequence of [type ("hdr" | "chan"), name (bytes, as configured: any letter case), term,
+\*                    sub (0: no regex rewrite, 1: every "a" -> "b")]; in hash records metadata keys are bytes too
 \* md, emd: metadata lists; extra metadata takes precedence; an absent / empty header is a no-op
 MdGet(md, key) == IF MdHas(md, key) THEN MdVals(md, key) ELSE <<>>
 PolInput(p, md, emd) ==
   IF p.type = "chan" THEN <<<<"chan">>>>
-  ELSE LET vs == IF MdGet(emd, p.name) # <<>> THEN MdGet(emd, p.name) ELSE MdGet(md, p.name) IN
+  ELSE LET nm == ToLowerASCII(p.name)     \* header names are case-insensitive; metadata keys are lower case
+           vs == IF MdGet(emd, nm) # <<>> THEN MdGet(emd, nm) ELSE MdGet(md, nm) IN
        IF vs = <<>> THEN <<>>
        ELSE <<<<"hdr", IF p.sub = 1 THEN ReplaceAll(JoinVals(vs), <<97>>, <<98>>) ELSE JoinVals(vs)>>>>
 \* The property only says that the hash is a function of the hash-policy inputs: the key below is the
